@@ -209,6 +209,8 @@ def must_refuse(cfg):
         return "QED evolution is only implemented for the iterate-exact method"
     if cfg["pt"] == "pol+tl":
         return "polarized time-like evolution is not implemented"
+    if cfg["qed"] > 0 and cfg["pt"] in ("pol", "tl"):
+        return "QED evolution only exists for unpolarized space-like evolution"
     if cfg["pt"] in ("pol", "tl") and cfg["qcd"] >= 4:
         return f"{cfg['pt']} evolution beyond NNLO is not available"
     return None
@@ -280,7 +282,7 @@ def run(ck):
         outcomes["ok"] = outcomes.get("ok", 0) + 1
         why = must_refuse(cfg)
         if why:
-            cls = "qed-method" if cfg["qed"] > 0 and cfg["method"] != "iterate-exact" else cfg["pt"]
+            cls = "qed-method" if cfg["qed"] > 0 and cfg["method"] != "iterate-exact" else (cfg["pt"] + ("+qed" if cfg["qed"] else ""))
             ck.violation(f"C04/accepted-unsupported/{cls}", f"configuration was solved although {why} (order {cfg['qcd']},{cfg['qed']}, method {cfg['method']}, {brief['pt']})", dict(cfg=cfg, res=res))
             continue
         if not res["finite"]:
